@@ -19,12 +19,12 @@ CHECKS = {
   design_ref="DESIGN.md §3 C35",
   note="Shim parent modules supply names only (validated by running the repo's unit tests through the shim each run). UtxoEntry harnesses: <= 2 ranges, <= 3 script bytes, <= 1 inscription with offset < 2^7 (quick) / 2^14 (thorough); entries with 2+ inscriptions, wide inscription offsets combined with other parts, and rune-balance lists are outside the decided bound (CBMC runs out of memory there). redb is trusted to return stored bytes."),
  "C10": dict(
-  engine="E1b-kani-lift",
-  technique="bounded model checking (Kani/CBMC) of the real RuneEntry::mintable/start/end against an exact-arithmetic reference written from the statement; all Terms option patterns and values symbolic",
+  engine="E1b-kani-lift + E2-mir2smt",
+  technique="Kani/CBMC on the real RuneEntry::mintable/start/end vs. an exact-arithmetic reference; MIR symbolic execution (z3) of the real RuneUpdater::mint over a table stub and of index_runes' mint/etching ordering; native replay",
   category="model_checking",
-  text="Complete solver verdict for the mint-terms predicate: for every Terms value, etching block, mint count and height <= u32::MAX, mintable() succeeds exactly when the statement's window/cap conditions hold and returns the amount; start()/end() are the later/earlier of absolute and saturating relative bounds. Only this predicate is decided - the counter update and cenotaph/unetched-rune clauses in RuneUpdater::mint are out of reach and stated as uncovered.",
+  text="Solver verdicts for (a) the terms predicate: mintable() succeeds exactly when the statement's window/cap conditions hold for every Terms, block, mint count and height; (b) the counter: RuneUpdater::mint grants a mint exactly when the stored entry's terms allow it, returns the set amount, stores the entry once with mints+1 <= cap and nothing else changed, and writes nothing for an absent rune or closed mint; (c) ordering: a transaction that mints the rune it etches gets nothing. 'A cenotaph mint still counts and is burned' is the C09 cenotaph scenario.",
   design_ref="DESIGN.md §3 C10",
-  note="heights <= u32::MAX (ord's Height type); shim parent as for C35; RuneUpdater::mint / index_runes are NOT covered (HashMap + redb tables)."),
+  note="heights <= u32::MAX; the rune-entry table is a stub returning an arbitrary entry; 'etched later in the same block' across transactions is block-level redb code and is not covered"),
  "C29": dict(
   engine="E2-mir2smt",
   technique="path-wise symbolic execution of the rustc MIR of crates/ordinals into SMT (z3 Int theory, cvc5 cross-check), one query per path per claim; translator validated against native execution each run; counterexamples replayed natively",
